@@ -428,7 +428,19 @@ def check_pair(a, b, predkind, rng, rec, variant=None):
             if structural(d1, d2, fused, pred_o, rec, wit):
                 return
             if predkind in ("none", "nonpersistent") and not (variant or "").startswith("chain:"):
-                differential(a, b, d1, d2, fused, rec, wit)
+                # (methods whose result depends on whether a plain array copy shares storage -- the alias-sensitive
+                # class of section 1 -- may legitimately come out differently under the fused phase's schedule)
+                sensitive = False
+                for sc in (a, b):
+                    try:
+                        rs, _ = backends.rseq_result(sc)
+                        sensitive = sensitive or rs.alias_sensitive
+                    except Exception:
+                        pass
+                if sensitive:
+                    rec.count("alias_sensitive_pairs_not_run")
+                else:
+                    differential(a, b, d1, d2, fused, rec, wit)
     except CaseTimeout:
         rec.timeout()
 
